@@ -206,3 +206,5 @@ type wireTxOut = wire.TxOut
 type bigInt = big.Int
 
 var bigE10 = big.NewInt(10_000_000_000)
+
+func sdkAcc(addr []byte) string { return sdk.AccAddress(addr).String() }
